@@ -240,6 +240,9 @@ def _cases(tier, seed):
         yield {'snippet': name, 'docformat': FORMATS[i % 5]}
     for name in TREES:
         yield {'tree': name, 'docformat': 'epytext'}
+    # snippets whose docstrings are epytext-specific, under epytext (the rotation above may have given them another format)
+    for name in ('epytext_repeated_headings', 'epytext_numbered_headings', 'field_without_colon'):
+        yield {'snippet': name, 'docformat': 'epytext'}
     # docutils messages that carry no line number, under each of the formats that go through docutils
     for fmt in ('restructuredtext', 'google', 'numpy'):
         yield {'snippet': 'rst_lineless_error', 'docformat': fmt}
@@ -393,5 +396,5 @@ HARNESS = {
         'bound': f'{len(SNIPPETS)} module texts (unparsable files, odd metadata variables, every definition form, extensions, deep/long expressions), {len(TREES)} '
                  'whole trees (missing __init__, name clashes, non-identifier file names, import cycles), 60 (1500) random line/token mutations of them, '
                  '13 standard-library modules and mutations of them; docformats rotate; real driver in-process, 120 s per run',
-        'budget_s': {'quick': 420, 'thorough': 6000}},
+        'budget_s': {'quick': 420, 'thorough': 2400}},
 }
